@@ -268,6 +268,19 @@ class Gen:
                 typed = ch[0] == 'concat' and r.random() < 0.5
                 items.append((typed, ch))
             return ('concat', 'new' if r.random() < 0.6 else 'add', items)
+        if k == 'repl' and depth >= 2 and r.random() < 0.12:
+            # rope-slicing family: a ReplaceSource (>= 1 replacement) over a ReplaceSource whose first
+            # replacement strips a prefix ending inside the first piece of a multi-piece inner rope
+            kids = [(False, self.leaf()) for _ in range(r.randrange(2, 4))]
+            base = ('concat', 'new', kids)
+            first = text_of(kids[0][1])
+            b = text_of(base)
+            cut = [i for i in range(1, len(first)) if (b[i] & 0xC0) != 0x80]
+            if cut:
+                rs = [(0, r.choice(cut), '', None, 1)] + [x for x in self.replacements(b)[:2] if x[0] > 0]
+                mid = ('repl', base, rs)
+                outer_rs = self.replacements(text_of(mid)) or [(0, 0, 'q', None, 1)]
+                return ('repl', mid, outer_rs)
         if k == 'repl':
             inner = self.node(depth - 1, True)
             return ('repl', inner, self.replacements(text_of(inner)))
